@@ -332,6 +332,11 @@ centralised_messages = {
         "description": "Occurs when the output of a component in a HAVING clause "
         "is not boolean as required.",
     },
+    "1-1-2-4": {
+        "message": "At op {op}: Grouping Identifier {id_name} not found in the aggregated Dataset.",
+        "description": "Raised when a HAVING clause is evaluated and a grouping Identifier "
+        "is missing from the aggregated Dataset.",
+    },
     # Analytic errors
     "1-1-3-2": {
         "message": "At op {op}: Only Identifiers are allowed for partitioning, "
@@ -799,6 +804,10 @@ centralised_messages = {
         "message": "At op {op}: {msg} in regexp: {regexp},  in position {pos}.",
         "description": "Raised when a string pattern or regex fails at a specific position.",
     },
+    "1-1-18-9": {
+        "message": "At op {op}: Invalid parameter position, only positions 1, 2 and 3 are allowed.",
+        "description": "Raised when instr receives a parameter at an unsupported position.",
+    },
     "1-1-18-10": {
         "message": "At op {op}: Cannot have a Dataset as parameter",
         "description": "Occurs when a Dataset is incorrectly used as a parameter in a "
@@ -955,6 +964,10 @@ centralised_messages = {
         "identifier sets are neither equal nor in a subset relationship.",
     },
     # AST Helpers
+    "1-3-1": {
+        "message": "Alias {alias} is already the name of a Component of the Dataset.",
+        "description": "Raised when an alias collides with a Component name of the aliased Dataset.",
+    },
     "1-3-1-1": {
         "message": "At op {op}: User defined {option} declared as {type_1}, found {type_2}.",
         "description": "Occurs when a user-defined option has a type mismatch in its declaration.",
